@@ -192,49 +192,87 @@ for _k in range(4):
 D32 = "bytes:32"                 # leaf script `<32 symbolic bytes> OP_CHECKSIG` (P2PK tapscript with a symbolic key)
 
 
-def _shape_expr(shape):
+def _shape_expr(shape, var):
     if isinstance(shape, int):
-        return "(0xC0, spec.taproot.push_script(d%d, 0xAC))" % shape
-    return "(%s, %s)" % (_shape_expr(shape[0]), _shape_expr(shape[1]))
-
-
-def _gen_tree(n):
-    def gen(rng, tier):
-        for t in range(12 if tier == "quick" else 60):
-            d = {"pub": {"__point__": _DS[t] if t < len(_DS) else rng.randrange(1, N)}}
-            for i in range(n):
-                d["d%d" % i] = _rb(rng, 32)
-            if t == 3 and n > 1:
-                d["d1"] = d["d0"]          # duplicate leaf
-            yield d
-    return gen
-
-
-TREES = {"tree1": 0, "tree2": (0, 1), "tree3a": ((0, 1), 2), "tree3b": (0, (1, 2)), "tree4a": ((0, 1), (2, 3)),
-         "tree4b": (((0, 1), 2), 3)}
+        return "(0xC0, spec.taproot.push_script(d%d, 0xAC))" % var[shape]
+    return "(%s, %s)" % (_shape_expr(shape[0], var), _shape_expr(shape[1], var))
 
 
 def _count(shape):
     return 1 if isinstance(shape, int) else _count(shape[0]) + _count(shape[1])
 
 
-for _name, _shape in TREES.items():
+def _sibling_distinct(shape, var):
+    """A-CR (stated): two DIFFERENT children of a branch have different hashes (identical children -- duplicate
+    leaves -- are allowed and are what the *_dup contracts are about).  Engine reason: in the tie case code and
+    spec concatenate the two equal hashes in opposite orders; z3 identifies the two tweaks but the sign-canonical
+    form of the tweaked scalar may pick opposite representatives, and y(-a) = p - y(a) is not a z3 axiom."""
+    if isinstance(shape, int):
+        return []
+    l, r = _shape_expr(shape[0], var), _shape_expr(shape[1], var)
+    out = _sibling_distinct(shape[0], var) + _sibling_distinct(shape[1], var)
+    if l != r:
+        out.append("spec.int_be(spec.taproot.tree_hash(%s)) != spec.int_be(spec.taproot.tree_hash(%s))" % (l, r))
+    return out
+
+
+def _gen_tree(n, var):
+    names = sorted(set(var))
+
+    def gen(rng, tier):
+        for t in range(10 if tier == "quick" else 60):
+            d = {"pub": {"__point__": _DS[t] if t < len(_DS) else rng.randrange(1, N)}}
+            for i in names:
+                d["d%d" % i] = _rb(rng, 32)
+            yield d
+    return gen
+
+
+# name -> (shape over leaf positions, variable used at each position); equal variables = duplicate leaves
+TREES = {"tree1": (0, [0]), "tree2": ((0, 1), [0, 1]), "tree2_dup": ((0, 1), [0, 0]),
+         "tree3a": (((0, 1), 2), [0, 1, 2]), "tree3b": ((0, (1, 2)), [0, 1, 2]),
+         "tree3a_dup01": (((0, 1), 2), [0, 0, 2]), "tree3a_dup02": (((0, 1), 2), [0, 1, 0]),
+         "tree3a_dup12": (((0, 1), 2), [0, 1, 1]), "tree3a_dup012": (((0, 1), 2), [0, 0, 0]),
+         "tree3b_dup01": ((0, (1, 2)), [0, 0, 2]), "tree3b_dup02": ((0, (1, 2)), [0, 1, 0]),
+         "tree3b_dup12": ((0, (1, 2)), [0, 1, 1]), "tree3b_dup012": ((0, (1, 2)), [0, 0, 0]),
+         "tree4a": (((0, 1), (2, 3)), [0, 1, 2, 3]), "tree4b": ((((0, 1), 2), 3), [0, 1, 2, 3])}
+
+for _name, (_shape, _var) in TREES.items():
     _n = _count(_shape)
-    _T = _shape_expr(_shape)
+    _names = sorted(set(_var))
+    _T = _shape_expr(_shape, _var)
     _Q = "spec.taproot.output_key(pub, spec.taproot.tree_hash(%s))" % _T
     _ens = ["returns()", "spec.curve.same(result[0], %s)" % _Q, "len(result[1]) == %d" % _n]
     for _i in range(_n):
         _row = "result[1][%d]" % _i
         _ens += [
-            # the control block the library builds is the BIP341 control block of that leaf ...
-            "%s[0] == spec.taproot.control_block_ser(0xC0, spec.taproot.parity(%s), spec.taproot.x32(pub), spec.taproot.leaf_paths(%s)[%d][2])" % (_row, _Q, _T, _i),
-            # ... it recomputes the output key and its parity ...
+            # the control block recomputes the output key and its parity ...
             "spec.curve.same(%s[1], result[0]) and %s[2] == result[0].parity" % (_row, _row),
-            "%s[2] == spec.taproot.parity(%s)" % (_row, _Q),
-            # ... and passes the BIP341 script-path commitment rule for this output
-            "spec.taproot.script_path_commits(spec.taproot.x32(%s), %s[0], spec.taproot.push_script(d%d, 0xAC)) is True" % (_Q, _row, _i),
-        ]
+            "%s[2] == spec.taproot.parity(%s)" % (_row, _Q)]
+        if _var[_i] not in _var[:_i]:
+            # ... and it is the BIP341 control block of that position (a repeated leaf gets the control block of its
+            # first occurrence: path_hashes looks leaves up by equality; that block is checked by the line above)
+            _ens.append("%s[0] == spec.taproot.control_block_ser(0xC0, spec.taproot.parity(%s), spec.taproot.x32(pub), spec.taproot.leaf_paths(%s)[%d][2])"
+                        % (_row, _Q, _T, _i))
     contract(H + _name, props=("C12",), nl_uf=True,
+             params=dict({"pub": point}, **{"d%d" % i: D32 for i in _names}),
+             requires=(["spec.taproot.tweak_defined(pub, spec.taproot.tree_hash(%s))" % _T]
+                       + ["d%d != d%d" % (i, j) for i in _names for j in _names if i < j]      # case split, see TREES
+                       + _sibling_distinct(_shape, _var)),
+             ensures=_ens, gen=_gen_tree(_n, _var), tiers=("quick", "thorough") if _n <= 3 else ("thorough",))
+
+# the control block the library builds passes the BIP341 script-path rule, evaluated by the spec on the BYTES
+# (lift_x of the 32 key bytes, Merkle fold over the 32-byte slices, tweak range, x-only key and parity bit)
+for _name in ("tree1", "tree2", "tree3a"):
+    _shape, _var = TREES[_name]
+    _n = _count(_shape)
+    _T = _shape_expr(_shape, _var)
+    _Q = "spec.taproot.output_key(pub, spec.taproot.tree_hash(%s))" % _T
+    contract(H + _name + "#bip341-rule", props=("C12",), nl_uf=True,
              params=dict({"pub": point}, **{"d%d" % i: D32 for i in range(_n)}),
-             requires=["spec.taproot.tweak_defined(pub, spec.taproot.tree_hash(%s))" % _T],
-             ensures=_ens, gen=_gen_tree(_n), tiers=("quick", "thorough") if _n <= 3 else ("thorough",))
+             requires=(["spec.taproot.tweak_defined(pub, spec.taproot.tree_hash(%s))" % _T]
+                       + ["d%d != d%d" % (i, j) for i in range(_n) for j in range(_n) if i < j] + _sibling_distinct(_shape, _var)),
+             ensures=["returns()"] + [
+                 "spec.taproot.script_path_commits(spec.taproot.x32(%s), result[1][%d][0], spec.taproot.push_script(d%d, 0xAC)) is True" % (_Q, _i, _i)
+                 for _i in range(_n)],
+             gen=_gen_tree(_n, _var))
